@@ -76,7 +76,7 @@ def run(ctx):
                     for L in lens6:
                         f.write(json.dumps(gen_case(rnd, n, 2, L)) + "\n")
                 for n in (1, 2, 3):
-                    for err in ("key", "suite", "afi", "count"):
+                    for err in ("key", "suite", "afi", "count") + ("afi",) * 8:
                         for eh in range(1, n + 1):
                             f.write(json.dumps(gen_case(rnd, n, rnd.choice([1, 2]), rnd.choice([0, 8, 19, 24, 32]), err, eh)) + "\n")
     trace = os.path.join(wd, "trace.ndjson")
